@@ -2,14 +2,14 @@ package props
 
 import (
 	"fmt"
-	"go/ast"
 	"go/constant"
 	"go/token"
-	"go/types"
 	"strconv"
 
+	"golang.org/x/tools/go/packages"
 	"golang.org/x/tools/go/ssa"
 
+	"rjverif/internal/bytewin"
 	"rjverif/internal/core"
 	"rjverif/internal/lts"
 	"rjverif/internal/machine"
@@ -361,366 +361,157 @@ func (x *Ctx) fastLoopRule(r *core.Result, rs *core.RuleStat, name string) {
 // getu4Rule: R06d — value-set evaluation of the hex switch and shape of the accumulation.
 func (x *Ctx) getu4Rule(r *core.Result, rs *core.RuleStat) {
 	w := x.W
-	fd := w.FuncDecl(w.Root, "getu4")
-	if fd == nil {
+	fn := x.Func("getu4")
+	if fn == nil || len(fn.Params) != 1 {
 		r.Undecided(rs, "getu4", "-", "function not found")
 		return
 	}
 	rs.Instances++
-	info := w.Root.TypesInfo
-	fail := func(k, msg string, pos token.Pos) {
-		r.Fail(rs, "getu4:"+k, w.Pos(pos), msg)
-	}
-	var rng *ast.RangeStmt
-	var guard *ast.IfStmt
-	for _, s := range fd.Body.List {
-		switch t := s.(type) {
-		case *ast.RangeStmt:
-			rng = t
-		case *ast.IfStmt:
-			if guard == nil {
-				guard = t
-			}
-		}
-	}
-	if rng == nil || guard == nil {
-		r.Undecided(rs, "getu4:shape", w.Pos(fd.Pos()), "expected a guard followed by a range loop over the four hex digits")
+	outs, err := bytewin.Explore(fn, 0, x.byteTable)
+	if err != nil {
+		r.Undecided(rs, "getu4:domain", w.Pos(fn.Pos()), "byte-window analysis gave up: "+err.Error())
 		return
 	}
-	// guard: len(data) < 6 || data[0] != '\\' || data[1] != 'u' -> return negative
-	gs := exprText(guard.Cond)
-	wantParts := []string{"len(data)<6", "data[0]!=92", "data[1]!=117"}
-	for _, p := range wantParts {
-		if !containsNorm(gs, p, info, guard.Cond) {
-			fail("guard", "the guard does not contain `"+p+"` (length >= 6, backslash, 'u')", guard.Pos())
-		}
-	}
-	if !returnsNegative(guard.Body, info) {
-		fail("guard-return", "the guard does not return a negative value", guard.Pos())
-	}
-	// range over data[2:6]
-	if se, ok := ast.Unparen(rng.X).(*ast.SliceExpr); !ok || !isConstInt(info, se.Low, 2) || !isConstInt(info, se.High, 6) {
-		fail("digits", "the loop does not run over exactly data[2:6]", rng.Pos())
-	}
-	cvar, _ := rng.Value.(*ast.Ident)
-	if cvar == nil {
-		fail("loopvar", "no element variable", rng.Pos())
-		return
-	}
-	// switch: evaluate per byte
-	var sw *ast.SwitchStmt
-	var acc *ast.AssignStmt
-	for _, s := range rng.Body.List {
-		switch t := s.(type) {
-		case *ast.SwitchStmt:
-			sw = t
-		case *ast.AssignStmt:
-			acc = t
-		}
-	}
-	if sw == nil || sw.Tag != nil {
-		r.Undecided(rs, "getu4:switch", w.Pos(rng.Pos()), "expected a tag-less switch classifying the hex digit")
-		return
-	}
-	bad := 0
-	for b := 0; b < 256; b++ {
-		got := -1
-		matched := false
-		for _, c := range sw.Body.List {
-			cc := c.(*ast.CaseClause)
-			if cc.List == nil {
-				continue
-			}
-			hit := false
-			for _, cond := range cc.List {
-				v, ok := evalByteCond(info, cond, cvar.Name, b)
-				if !ok {
-					r.Undecided(rs, "getu4:case", w.Pos(cond.Pos()), "case condition is not a comparison of the digit with constants")
-					return
-				}
-				if v {
-					hit = true
-				}
-			}
-			if hit {
-				matched = true
-				// body: c = <expr over c> or c -= k
-				val, ok := evalNibbleBody(info, cc.Body, cvar.Name, b)
-				if !ok {
-					r.Undecided(rs, "getu4:case-body", w.Pos(cc.Pos()), "case body is not an assignment of the nibble value")
-					return
-				}
-				got = val
-				break
-			}
-		}
-		if !matched {
-			// default must return negative
-			got = -1
-		}
-		want := -1
+	hexv := func(b int) int64 {
 		switch {
 		case b >= '0' && b <= '9':
-			want = b - '0'
+			return int64(b - '0')
 		case b >= 'a' && b <= 'f':
-			want = b - 'a' + 10
+			return int64(b-'a') + 10
 		case b >= 'A' && b <= 'F':
-			want = b - 'A' + 10
+			return int64(b-'A') + 10
 		}
-		if got != want {
-			bad++
-			if bad <= 3 {
-				fail(fmt.Sprintf("nibble[0x%02x]", b), fmt.Sprintf("byte %q yields nibble %d, the hexadecimal value is %d (-1 = reject)", rune(b), got, want), sw.Pos())
+		return -1
+	}
+	hexSet := lts.Range('0', '9').Or(lts.Range('a', 'f')).Or(lts.Range('A', 'F'))
+	// the inputs on which getu4 must yield a code unit: at least six bytes, `\`, `u`, four hex digits
+	want := map[int]lts.ByteSet{0: lts.Of('\\'), 1: lts.Of('u'), 2: hexSet, 3: hexSet, 4: hexSet, 5: hexSet}
+	bad := 0
+	fail := func(o *bytewin.Outcome, k, msg string) {
+		bad++
+		if bad <= 4 {
+			r.Fail(rs, "getu4:"+k, w.Pos(o.Ret.Pos()), msg+" [inputs: "+o.Describe()+"]")
+		}
+	}
+	classes := 0
+	for i := range outs {
+		o := &outs[i]
+		if len(o.Results) != 1 {
+			fail(o, "results", "unexpected result count")
+			continue
+		}
+		classes++
+		// relation of the class to the valid region
+		inside, disjoint := o.LenMin >= 6, o.LenMax >= 0 && o.LenMax < 6
+		for k, ws := range want {
+			cur := o.SetAt(k)
+			if cur.And(ws) != cur {
+				inside = false
+			}
+			if cur.And(ws).Empty() {
+				disjoint = true
 			}
 		}
-	}
-	// default clause returns negative
-	for _, c := range sw.Body.List {
-		cc := c.(*ast.CaseClause)
-		if cc.List == nil && !returnsNegative(&ast.BlockStmt{List: cc.Body}, info) {
-			fail("default", "a non-hex digit does not make getu4 return a negative value", cc.Pos())
+		sum, isSum := o.Results[0].(bytewin.Sum)
+		if !isSum {
+			fail(o, "value", "the result is not an arithmetic function of the six bytes")
+			continue
+		}
+		if len(sum.T) == 0 && sum.K < 0 {
+			if !disjoint {
+				fail(o, "reject", "a well-formed \\uXXXX escape may be rejected (negative result)")
+			}
+			continue
+		}
+		if !inside {
+			fail(o, "accept", "a non-negative code unit may be produced for input that is not `\\u` followed by four hex digits within the data")
+			continue
+		}
+		// value = Σ hex(data[2+i]) * 16^(3-i): compare the separable sums position by position
+		off := sum.K
+		okVal := true
+		for k := range sum.T {
+			if k < 2 || k > 5 {
+				okVal = false
+			}
+		}
+		for k := 2; k <= 5 && okVal; k++ {
+			weight := int64(1) << uint(4*(5-k))
+			tab := sum.T[k]
+			first := true
+			var d int64
+			cur := o.SetAt(k)
+			for b := 0; b < 256; b++ {
+				if !cur.Has(byte(b)) {
+					continue
+				}
+				var got int64
+				if tab != nil {
+					got = tab[b]
+				}
+				diff := got - hexv(b)*weight
+				if first {
+					d, first = diff, false
+				} else if diff != d {
+					okVal = false
+				}
+			}
+			off += d
+		}
+		if !okVal || off != 0 {
+			fail(o, "value", "the code unit is not the hexadecimal value of data[2:6] (most significant digit first)")
 		}
 	}
-	// r = r*16 + rune(c)
-	if acc == nil || normExpr(acc) != "r=r*16+rune(c)" {
-		got := ""
-		if acc != nil {
-			got = normExpr(acc)
-		}
-		// accept spelling variants by structure
-		if !accIs16(acc, cvar.Name) {
-			fail("accumulate", "the digits are not accumulated as r = r*16 + digit (found `"+got+"`)", rng.Pos())
-		}
+	if classes == 0 {
+		r.Undecided(rs, "getu4:outcomes", w.Pos(fn.Pos()), "no outcome found")
+		return
 	}
 	if bad == 0 {
-		rs.OK(256)
-		rs.Sample("getu4: 256-entry nibble table equals the hexadecimal table; guard len>=6, '\\\\', 'u'; r = r*16 + nibble over data[2:6]")
+		rs.OK(classes)
+		rs.Sample(fmt.Sprintf("getu4: %d input classes partition all inputs; negative exactly outside len>=6, '\\\\', 'u', 4 hex digits; inside the value is the big-endian hexadecimal value of data[2:6]", classes))
 	}
 }
 
-func isConstInt(info *types.Info, e ast.Expr, v int64) bool {
-	if e == nil {
-		return false
+// byteTable resolves a package-level [256]T variable of the library to integer entries (bool: 0/1).
+func (x *Ctx) byteTable(g *ssa.Global) *[256]int64 {
+	if g.Pkg == nil || g.Object() == nil {
+		return nil
 	}
-	tv, ok := info.Types[e]
-	if !ok || tv.Value == nil {
-		return false
-	}
-	i, exact := constant.Int64Val(constant.ToInt(tv.Value))
-	return exact && i == v
-}
-
-func exprText(e ast.Expr) string { return normAny(e) }
-
-// containsNorm: the disjunction cond contains a disjunct whose normalised text equals want (constants folded).
-func containsNorm(_ string, want string, info *types.Info, cond ast.Expr) bool {
-	var parts []ast.Expr
-	var split func(e ast.Expr)
-	split = func(e ast.Expr) {
-		e = ast.Unparen(e)
-		if be, ok := e.(*ast.BinaryExpr); ok && be.Op == token.LOR {
-			split(be.X)
-			split(be.Y)
-			return
-		}
-		parts = append(parts, e)
-	}
-	split(cond)
-	for _, p := range parts {
-		if normFold(info, p) == want {
-			return true
+	var pkg *packages.Package
+	for _, p := range x.W.Pkgs() {
+		if p.Types == g.Pkg.Pkg {
+			pkg = p
 		}
 	}
-	return false
-}
-
-func normFold(info *types.Info, e ast.Expr) string {
-	e = ast.Unparen(e)
-	if tv, ok := info.Types[e]; ok && tv.Value != nil {
-		if v := constant.ToInt(tv.Value); v.Kind() == constant.Int {
-			return v.ExactString()
-		}
+	if pkg == nil {
+		return nil
 	}
-	switch t := e.(type) {
-	case *ast.BinaryExpr:
-		return normFold(info, t.X) + t.Op.String() + normFold(info, t.Y)
-	case *ast.IndexExpr:
-		return normFold(info, t.X) + "[" + normFold(info, t.Index) + "]"
-	case *ast.CallExpr:
-		s := normFold(info, t.Fun) + "("
-		for i, a := range t.Args {
-			if i > 0 {
-				s += ","
+	tab := core.ReadTable256(pkg, g.Object())
+	if tab == nil {
+		return nil
+	}
+	var out [256]int64
+	for i, c := range tab {
+		switch c.Kind() {
+		case constant.Bool:
+			if constant.BoolVal(c) {
+				out[i] = 1
 			}
-			s += normFold(info, a)
-		}
-		return s + ")"
-	case *ast.Ident:
-		return t.Name
-	}
-	return "?"
-}
-
-func normAny(n ast.Node) string {
-	switch t := n.(type) {
-	case *ast.AssignStmt:
-		return normExpr(t)
-	case ast.Expr:
-		return normFold(&types.Info{}, t)
-	}
-	return ""
-}
-
-func normExpr(a *ast.AssignStmt) string {
-	if a == nil || len(a.Lhs) != 1 || len(a.Rhs) != 1 {
-		return ""
-	}
-	return normFold(&types.Info{}, a.Lhs[0]) + a.Tok.String() + normFold(&types.Info{}, a.Rhs[0])
-}
-
-func accIs16(a *ast.AssignStmt, cname string) bool {
-	if a == nil || len(a.Lhs) != 1 || len(a.Rhs) != 1 || a.Tok != token.ASSIGN {
-		return false
-	}
-	lhs, ok := a.Lhs[0].(*ast.Ident)
-	if !ok {
-		return false
-	}
-	add, ok := ast.Unparen(a.Rhs[0]).(*ast.BinaryExpr)
-	if !ok || add.Op != token.ADD {
-		return false
-	}
-	mul, ok := ast.Unparen(add.X).(*ast.BinaryExpr)
-	if !ok || mul.Op != token.MUL {
-		return false
-	}
-	x, ok := mul.X.(*ast.Ident)
-	lit, ok2 := mul.Y.(*ast.BasicLit)
-	if !ok || !ok2 || x.Name != lhs.Name || lit.Value != "16" {
-		return false
-	}
-	conv, ok := ast.Unparen(add.Y).(*ast.CallExpr)
-	if !ok || len(conv.Args) != 1 {
-		return false
-	}
-	arg, ok := conv.Args[0].(*ast.Ident)
-	return ok && arg.Name == cname
-}
-
-func returnsNegative(b *ast.BlockStmt, info *types.Info) bool {
-	if b == nil || len(b.List) == 0 {
-		return false
-	}
-	ret, ok := b.List[len(b.List)-1].(*ast.ReturnStmt)
-	if !ok || len(ret.Results) != 1 {
-		return false
-	}
-	tv, ok := info.Types[ret.Results[0]]
-	if !ok || tv.Value == nil {
-		return false
-	}
-	return constant.Sign(tv.Value) < 0
-}
-
-// evalByteCond evaluates a boolean expression over the byte variable cname for a concrete byte value.
-func evalByteCond(info *types.Info, e ast.Expr, cname string, b int) (bool, bool) {
-	e = ast.Unparen(e)
-	be, ok := e.(*ast.BinaryExpr)
-	if !ok {
-		return false, false
-	}
-	switch be.Op {
-	case token.LAND, token.LOR:
-		l, ok1 := evalByteCond(info, be.X, cname, b)
-		r, ok2 := evalByteCond(info, be.Y, cname, b)
-		if !ok1 || !ok2 {
-			return false, false
-		}
-		if be.Op == token.LAND {
-			return l && r, true
-		}
-		return l || r, true
-	}
-	val := func(x ast.Expr) (int64, bool) {
-		x = ast.Unparen(x)
-		if id, ok := x.(*ast.Ident); ok && id.Name == cname {
-			return int64(b), true
-		}
-		if tv, ok := info.Types[x]; ok && tv.Value != nil {
-			return constant.Int64Val(constant.ToInt(tv.Value))
-		}
-		return 0, false
-	}
-	l, ok1 := val(be.X)
-	r, ok2 := val(be.Y)
-	if !ok1 || !ok2 {
-		return false, false
-	}
-	switch be.Op {
-	case token.EQL:
-		return l == r, true
-	case token.NEQ:
-		return l != r, true
-	case token.LSS:
-		return l < r, true
-	case token.LEQ:
-		return l <= r, true
-	case token.GTR:
-		return l > r, true
-	case token.GEQ:
-		return l >= r, true
-	}
-	return false, false
-}
-
-// evalNibbleBody evaluates `c -= k` / `c = c - k + 10` (uint8 arithmetic) for a concrete byte.
-func evalNibbleBody(info *types.Info, body []ast.Stmt, cname string, b int) (int, bool) {
-	if len(body) != 1 {
-		return 0, false
-	}
-	as, ok := body[0].(*ast.AssignStmt)
-	if !ok || len(as.Lhs) != 1 || len(as.Rhs) != 1 {
-		return 0, false
-	}
-	if id, ok := as.Lhs[0].(*ast.Ident); !ok || id.Name != cname {
-		return 0, false
-	}
-	var ev func(e ast.Expr) (int64, bool)
-	ev = func(e ast.Expr) (int64, bool) {
-		e = ast.Unparen(e)
-		if id, ok := e.(*ast.Ident); ok && id.Name == cname {
-			return int64(b), true
-		}
-		if tv, ok := info.Types[e]; ok && tv.Value != nil {
-			return constant.Int64Val(constant.ToInt(tv.Value))
-		}
-		if be, ok := e.(*ast.BinaryExpr); ok {
-			l, ok1 := ev(be.X)
-			r, ok2 := ev(be.Y)
-			if !ok1 || !ok2 {
-				return 0, false
+		case constant.Int:
+			v, ok := constant.Int64Val(c)
+			if !ok {
+				return nil
 			}
-			switch be.Op {
-			case token.ADD:
-				return int64(uint8(l + r)), true
-			case token.SUB:
-				return int64(uint8(l - r)), true
-			}
+			out[i] = v
+		default:
+			return nil
 		}
-		return 0, false
 	}
-	switch as.Tok {
-	case token.ASSIGN:
-		v, ok := ev(as.Rhs[0])
-		return int(v), ok
-	case token.SUB_ASSIGN:
-		v, ok := ev(as.Rhs[0])
-		return int(uint8(int64(b) - v)), ok
-	case token.ADD_ASSIGN:
-		v, ok := ev(as.Rhs[0])
-		return int(uint8(int64(b) + v)), ok
+	// the table must never be written
+	if x.globalWritten(g) {
+		return nil
 	}
-	return 0, false
+	return &out
 }
 
 // unescapeUnicodeRule: R06e.
@@ -933,4 +724,38 @@ func (x *Ctx) stringContentRules(r *core.Result) {
 	e := r.Rule("R06e", "unescapeUnicodeChar: reports 12 bytes exactly when the first unit is a surrogate and utf16.DecodeRune(first, getu4(s[6:])) is valid, writing that rune; otherwise writes the unit itself (U+FFFD for an unpaired surrogate) and reports 6; fails only when the first escape is malformed; s[6:] is evaluated only after the first escape was validated")
 	x.unescapeUnicodeRule(r, e)
 	r.CheckFloor(e, 1)
+}
+
+// globalWritten: the package-level variable g may be modified: some use of it is not an element load
+// (`g[i]` read) or a whole-value load.
+func (x *Ctx) globalWritten(g *ssa.Global) bool {
+	for _, fn := range x.W.SrcFuncs() {
+		for _, b := range fn.Blocks {
+			for _, ins := range b.Instrs {
+				for _, op := range ins.Operands(nil) {
+					if *op != ssa.Value(g) {
+						continue
+					}
+					switch t := ins.(type) {
+					case *ssa.IndexAddr:
+						for _, ref := range *t.Referrers() {
+							if ld, ok := ref.(*ssa.UnOp); !ok || ld.Op != token.MUL {
+								if _, isDbg := ref.(*ssa.DebugRef); !isDbg {
+									return true
+								}
+							}
+						}
+					case *ssa.UnOp:
+						if t.Op != token.MUL {
+							return true
+						}
+					case *ssa.DebugRef:
+					default:
+						return true
+					}
+				}
+			}
+		}
+	}
+	return false
 }
